@@ -11,7 +11,7 @@ package main
 // been written to stdout is exactly what has been consumed from stdin, and the blocks
 // sent to the recorder tile the consumed input (each block a private copy).
 //@ func readAndWrite
-//@ requires[C07] cfg != nil && recorderChannel != nil
+//@ requires cfg != nil && recorderChannel != nil
 //@ requires[C16] !closed(recorderChannel) && os.Stdin != nil && os.Stdout != nil && os.Stdin != os.Stdout
 //@ let c0 = gc("rdbytes", os.Stdin)
 //@ let w0 = gc("wr", os.Stdout)
@@ -38,7 +38,7 @@ package main
 // call, in order; gb("wroff", w)[c] is the offset in the writer's log at which call c wrote.
 // Hence the log grows by the concatenation of the blocks.
 //@ func recorder
-//@ requires[C07] cfg != nil
+//@ requires cfg != nil
 //@ let w0 = gc("wr", writer)
 //@ let c0 = gc("wrcalls", writer)
 //@ let r0 = recvd(recorderChannel)
